@@ -770,10 +770,16 @@ Definition unit_uc (u : lit) : uc := UC [(1, u)] Eq 1.
 
 Definition wf_pbc_print (c : pbc) : Prop := terms c <> [] /\ tail_nonneg (terms c).
 
-Definition wf_pb_problem (P : pb_problem) : Prop := Forall wf_pbc_print (pp_clauses P).
+(* what a trivially UNSAT problem is printed as: 1 x1 >= 2 *)
+Definition contradiction_pbc : pbc := PBC [(1, 1)] 2.
+Definition contradiction_uc : uc := UC [(1, 1)] Ge 2.
+
+Definition wf_pb_problem (P : pb_problem) : Prop :=
+  pp_unsat P = false -> Forall wf_pbc_print (pp_clauses P).
 
 Definition pb_problem_ucs (P : pb_problem) : list uc :=
-  map unit_uc (pp_units P) ++ map pbc_uc (pp_clauses P).
+  if pp_unsat P then [contradiction_uc]
+  else map unit_uc (pp_units P) ++ map pbc_uc (pp_clauses P).
 
 Lemma unit_line_item : forall u,
   tok "1 " ++ var_tok u ++ tok " = 1 ;" = item_line (unit_item u).
@@ -808,13 +814,15 @@ Proof.
     + exact Hnb.
 Qed.
 
-Theorem C18_opb_b : forall P,
-  wf_pb_problem P -> lines_short (print_opb_b P) ->
-  parse_opb_r (print_opb_b P)
-  = POk (opb_nbvars (pb_problem_ucs P) (pp_cost P), pb_problem_ucs P, pp_cost P).
+Lemma C18_opb_sat_b : forall n units cls cost,
+  Forall wf_pbc_print cls ->
+  lines_short (print_opb_b (PBProblem n false units cls cost)) ->
+  parse_opb_r (print_opb_b (PBProblem n false units cls cost))
+  = POk (opb_nbvars (map unit_uc units ++ map pbc_uc cls) cost,
+         map unit_uc units ++ map pbc_uc cls, cost).
 Proof.
-  intros [n units cls cost] Hwf. unfold wf_pb_problem in Hwf. cbn [pp_clauses] in Hwf.
-  unfold print_opb_b, pb_problem_ucs. cbn [pp_cost pp_units pp_clauses].
+  intros n units cls cost Hwf.
+  unfold print_opb_b. cbn [pp_unsat pp_cost pp_units pp_clauses].
   set (items := map unit_item units ++ map clause_item cls).
   set (costl := match cost with
                 | None => []
@@ -858,6 +866,21 @@ Proof.
   rewrite Hucs. reflexivity.
 Qed.
 
+Theorem C18_opb_b : forall P,
+  wf_pb_problem P -> lines_short (print_opb_b P) ->
+  parse_opb_r (print_opb_b P)
+  = POk (opb_nbvars (pb_problem_ucs P) (pp_cost P), pb_problem_ucs P, pp_cost P).
+Proof.
+  intros [n unsat units cls cost] Hwf. unfold wf_pb_problem in Hwf.
+  cbn [pp_unsat pp_clauses] in Hwf. unfold pb_problem_ucs. cbn [pp_unsat pp_units pp_clauses pp_cost].
+  destruct unsat.
+  - change (print_opb_b (PBProblem n true units cls cost))
+      with (print_opb_b (PBProblem n false [] [contradiction_pbc] cost)).
+    intros Hs. apply (C18_opb_sat_b n [] [contradiction_pbc] cost); [|exact Hs].
+    constructor; [|constructor]. split; [discriminate|constructor].
+  - apply C18_opb_sat_b. apply Hwf. reflexivity.
+Qed.
+
 Theorem C18_opb : forall P,
   wf_pb_problem P -> lines_short (list_ascii_of_string (print_opb P)) ->
   parse_opb (print_opb P)
@@ -875,15 +898,23 @@ Proof.
   destruct (lit_val m u); reflexivity.
 Qed.
 
+Lemma sat_contradiction_uc : forall m, sat_uc m contradiction_uc = false.
+Proof.
+  intros m. unfold sat_uc, contradiction_uc. cbn [u_terms u_rel u_rhs lhs]. unfold term_val.
+  cbn [fst snd]. destruct (lit_val m 1); reflexivity.
+Qed.
+
 Lemma sat_pb_problem_ucs : forall m P,
   sat_uproblem m (pb_problem_ucs P)
-  = forallb (lit_val m) (pp_units P) && sat_problem m (pp_clauses P).
+  = negb (pp_unsat P) && (forallb (lit_val m) (pp_units P) && sat_problem m (pp_clauses P)).
 Proof.
-  intros m P. unfold sat_uproblem, pb_problem_ucs, sat_problem. rewrite forallb_app. f_equal.
-  - induction (pp_units P) as [|u r IH]; [reflexivity|]. cbn [map forallb].
-    rewrite sat_unit_uc, IH. reflexivity.
-  - induction (pp_clauses P) as [|c r IH]; [reflexivity|]. cbn [map forallb].
-    rewrite sat_pbc_uc, IH. reflexivity.
+  intros m P. unfold pb_problem_ucs. destruct (pp_unsat P).
+  - unfold sat_uproblem. cbn [forallb]. rewrite sat_contradiction_uc. reflexivity.
+  - cbn [negb andb]. unfold sat_uproblem, sat_problem. rewrite forallb_app. f_equal.
+    + induction (pp_units P) as [|u r IH]; [reflexivity|]. cbn [map forallb].
+      rewrite sat_unit_uc, IH. reflexivity.
+    + induction (pp_clauses P) as [|c r IH]; [reflexivity|]. cbn [map forallb].
+      rewrite sat_pbc_uc, IH. reflexivity.
 Qed.
 
 (* ------------------------------------------------------------------ *)
@@ -960,11 +991,33 @@ Proof.
 Qed.
 
 Definition wf_solver_view (S : solver_view) : Prop :=
-  Forall wf_pbc_print (sv_orig S ++ sv_learned S) /\
-  match sv_cost S with Some ts => tail_nonneg ts | None => True end.
+  Forall wf_pbc_print (sv_orig S ++ sv_learned S).
 
 Definition solver_view_ucs (S : solver_view) : list uc :=
-  map pbc_uc (sv_orig S ++ sv_learned S) ++ facts_ucs (sv_model S).
+  map pbc_uc (sv_orig S ++ sv_learned S)
+  ++ (if sv_unsat S then [contradiction_uc] else [])
+  ++ facts_ucs (sv_model S).
+
+(* Solver.PBString writes the cost function as costFuncString does *)
+Lemma solver_cost_false : forall r,
+  List.concat (map (fun y => [SP] ++ y) (solver_cost_terms false r)) = cost_terms_str false r.
+Proof.
+  induction r as [|t r IH]; [reflexivity|].
+  cbn [solver_cost_terms map List.concat cost_terms_str orb]. rewrite IH.
+  destruct (Z.ltb_spec (fst t) 0) as [H|H].
+  - replace (0 <=? fst t) with false by (symmetry; apply Z.leb_gt; exact H).
+    app_norm. reflexivity.
+  - replace (0 <=? fst t) with true by (symmetry; apply Z.leb_le; exact H).
+    app_norm. reflexivity.
+Qed.
+
+Lemma solver_cost_join : forall ts,
+  join [SP] (solver_cost_terms true ts) = cost_terms_str true ts.
+Proof.
+  intros ts. destruct ts as [|t r]; [reflexivity|].
+  cbn [solver_cost_terms]. rewrite join_cons_concat, solver_cost_false.
+  cbn [orb cost_terms_str app]. reflexivity.
+Qed.
 
 Lemma item_line_nonempty : forall it, wf_item it -> item_line it <> [].
 Proof.
@@ -977,11 +1030,12 @@ Theorem C18_solver_opb_b : forall S,
   parse_opb_r (print_solver_opb_b S)
   = POk (opb_nbvars (solver_view_ucs S) (sv_cost S), solver_view_ucs S, sv_cost S).
 Proof.
-  intros [n orig learned cost model] [Hwf Hcost].
-  cbn [sv_orig sv_learned sv_cost] in Hwf, Hcost.
+  intros [n unsat orig learned cost model] Hwf. unfold wf_solver_view in Hwf.
+  cbn [sv_orig sv_learned] in Hwf.
   unfold print_solver_opb_b, solver_view_ucs, facts_ucs.
-  cbn [sv_nbvars sv_orig sv_learned sv_cost sv_model].
-  set (items := map clause_item (orig ++ learned) ++ facts_items 0 model).
+  cbn [sv_nbvars sv_unsat sv_orig sv_learned sv_cost sv_model].
+  set (citems := if unsat then [(([(1, 1)], Ge, 2) : go_item)] else []).
+  set (items := map clause_item (orig ++ learned) ++ citems ++ facts_items 0 model).
   set (meta := tok "* #variable= " ++ print_Zl n ++ tok " #constraint= "
                ++ print_Zl (Z.of_nat (List.length orig)) ++ tok " #learned= "
                ++ print_Zl (Z.of_nat (List.length learned))).
@@ -990,29 +1044,36 @@ Proof.
                 | Some ts => [tok "min: " ++ cost_terms_str true ts ++ tok " ;"]
                 end).
   assert (Hitems : Forall wf_item items).
-  { unfold items. apply Forall_app. split; [|apply facts_items_wf].
-    apply Forall_forall. intros it Hit. apply in_map_iff in Hit. destruct Hit as [x [<- Hx]].
-    rewrite Forall_forall in Hwf. destruct (Hwf x Hx) as [Hne _]. split; [exact Hne|left; reflexivity]. }
+  { unfold items. apply Forall_app. split.
+    - apply Forall_forall. intros it Hit. apply in_map_iff in Hit. destruct Hit as [x [<- Hx]].
+      rewrite Forall_forall in Hwf. destruct (Hwf x Hx) as [Hne _]. split; [exact Hne|left; reflexivity].
+    - apply Forall_app. split; [|apply facts_items_wf]. unfold citems. destruct unsat; [|constructor].
+      constructor; [|constructor]. split; [discriminate|left; reflexivity]. }
   assert (Hne : Forall (fun l => l <> []) (map item_line items)).
   { rewrite Forall_map. apply Forall_forall. intros it Hit. apply item_line_nonempty.
     rewrite Forall_forall in Hitems. apply Hitems. exact Hit. }
   assert (Htext :
     (meta ++ [LF])
     ++ match cost with
-       | Some ts => tok "min: " ++ join (tok " +") (map term_str ts) ++ tok " ;" ++ [LF]
+       | Some ts => tok "min: " ++ join [SP] (solver_cost_terms true ts) ++ tok " ;" ++ [LF]
        | None => []
        end
-    ++ join [LF] (map clause_pbstring (orig ++ learned) ++ facts_str 0 model)
+    ++ join [LF] (map clause_pbstring (orig ++ learned)
+                  ++ (if unsat then [tok "1 x1 >= 2 ;"] else []) ++ facts_str 0 model)
     = join_lines (match map item_line items with [] => false | _ => true end)
         (map (fun l => (l, false)) ((meta :: costl) ++ map item_line items))).
   { rewrite <- prefix_join_lines by exact Hne.
-    assert (HL : map clause_pbstring (orig ++ learned) ++ facts_str 0 model = map item_line items).
-    { unfold items. rewrite (map_app item_line), map_map, facts_str_items by lia. f_equal.
-      apply map_ext_in. intros c Hc. rewrite Forall_forall in Hwf.
-      apply clause_line_item. apply Hwf. exact Hc. }
+    assert (HL : map clause_pbstring (orig ++ learned)
+                 ++ (if unsat then [tok "1 x1 >= 2 ;"] else []) ++ facts_str 0 model
+                 = map item_line items).
+    { unfold items. rewrite (map_app item_line), (map_app item_line), map_map,
+        facts_str_items by lia. f_equal; [|f_equal].
+      - apply map_ext_in. intros c Hc. rewrite Forall_forall in Hwf.
+        apply clause_line_item. apply Hwf. exact Hc.
+      - unfold citems. destruct unsat; reflexivity. }
     rewrite HL. rewrite app_assoc. f_equal. cbn [map List.concat]. f_equal.
     unfold costl. destruct cost as [ts|]; [|reflexivity].
-    cbn [map List.concat]. rewrite join_plus_cost by exact Hcost. rewrite app_nil_r.
+    cbn [map List.concat]. rewrite solver_cost_join. rewrite app_nil_r.
     rewrite <- !app_assoc. reflexivity. }
   unfold meta in Htext. rewrite <- !app_assoc in Htext. rewrite <- !app_assoc.
   fold meta in Htext |- *.
@@ -1050,8 +1111,10 @@ Proof.
   rewrite Hhead. rewrite <- (app_nil_r (map item_line items)), Hrun.
   cbn [opb_lines app]. unfold opb_nbvars.
   assert (Hucs : map item_uc items
-                 = map pbc_uc (orig ++ learned) ++ map item_uc (facts_items 0 model)).
-  { unfold items. rewrite map_app, !map_map. reflexivity. }
+                 = map pbc_uc (orig ++ learned) ++ (if unsat then [contradiction_uc] else [])
+                   ++ map item_uc (facts_items 0 model)).
+  { unfold items. rewrite (map_app item_uc), (map_app item_uc), map_map. f_equal. f_equal.
+    unfold citems. destruct unsat; reflexivity. }
   rewrite Hucs. reflexivity.
 Qed.
 
